@@ -37,7 +37,9 @@ type PDoc struct {
 }
 
 type POp struct {
-	Kind string `json:"kind"` // bulk | conc | fault | obs | crashin | power | restart | restartcrash | skip
+	Kind string `json:"kind"` // bulk | conc | fault | obs | crashin | power | restart | restartcrash | startintr | skip
+	// startintr: start-up under a context cancelled after K polls (K = -1: random in [0, polls of the start-up),
+	// -2: the last poll; resolved at run time)
 	// fault: one write of the bulk fails with EFBIG after Cut bytes (File = docs | meta); Acked = the store's answer
 	File  string `json:"file,omitempty"`
 	Cut   int    `json:"cut,omitempty"`
@@ -101,6 +103,7 @@ type obs struct {
 	Why      string         `json:"why,omitempty"`
 	Fetches  map[int]string `json:"fetches,omitempty"`  // id -> "absent" | "err:..." | hex body
 	Searches map[int][]int  `json:"searches,omitempty"` // token -> ids
+	Intr     *intrObs       `json:"interrupted_startup,omitempty"` // an interrupted start-up (intr.go) instead of a start
 }
 
 type pop struct {
@@ -125,6 +128,7 @@ type result struct {
 	exts  [][][2]uint64 // per child process: (Ext1, Ext2) of the blocks of the real .meta file at its end
 	err   error // harness-level problem: the history is dropped
 	ntriv bool
+	nintr int // interrupted start-ups that returned the cancellation
 	mobs  []mobs   // multi-fraction histories: observations with the fraction list
 	mops  []string // ... and the projected operations, rendered
 }
@@ -976,6 +980,43 @@ func exec(plan Plan, tmp string) (res *result) {
 				return fail(err)
 			}
 			crashedBefore = true
+		case "startintr":
+			if x.child != nil { // kill: everything written so far stays
+				tr, calls, err := x.closeChild()
+				if err != nil {
+					return fail(err)
+				}
+				if _, err := x.account(tr, calls, len(calls)); err != nil {
+					return fail(err)
+				}
+			}
+			io, herr, derr := x.startInterrupted(op, nil, func() error {
+				tr, calls, err := x.closeChild()
+				if err != nil {
+					return err
+				}
+				_, err = x.account(tr, calls, 0)
+				return err
+			})
+			if herr != nil {
+				return fail(herr)
+			}
+			if derr != nil {
+				res.obs = append(res.obs, obs{Died: true, Why: "interrupted start-up: " + short(derr.Error())})
+				res.plan.Ops = res.plan.Ops[:i+1]
+				return
+			}
+			if io.Complete { // nobody saw the cancellation: an ordinary start
+				o := x.observe()
+				res.obs = append(res.obs, o)
+				if o.Died {
+					res.plan.Ops = res.plan.Ops[:i+1]
+					return
+				}
+				continue
+			}
+			res.obs = append(res.obs, obs{Intr: io})
+			res.nintr++
 		case "restart", "restartcrash":
 			if x.child != nil { // kill: everything written so far stays
 				tr, calls, err := x.closeChild()
@@ -1119,6 +1160,8 @@ func coqCase(res *result) (string, bool) {
 			sb.WriteString("IRestart")
 		case "restartcrash":
 			sb.WriteString("IRestartCrash")
+		case "startintr":
+			fmt.Fprintf(&sb, "IStartIntr %d", o.K)
 		}
 	}
 	sb.WriteString("] [")
@@ -1128,6 +1171,10 @@ func coqCase(res *result) (string, bool) {
 		}
 		if o.Died {
 			sb.WriteString("IDied")
+			continue
+		}
+		if o.Intr != nil {
+			fmt.Fprintf(&sb, "IIntr %s %d %d", casefile.Bool(o.Intr.Same), o.Intr.DLen, o.Intr.MLen)
 			continue
 		}
 		sb.WriteString("IUp [")
@@ -1295,9 +1342,58 @@ func (g *gen) history(maxRounds int) Plan {
 		if g.r.Chance(1, 5) {
 			p.Ops = append(p.Ops, POp{Kind: "restartcrash"})
 		}
+		if g.r.Chance(1, 4) { // SIGTERM while the store is starting, once or twice, at a random poll
+			p.Ops = append(p.Ops, POp{Kind: "startintr", K: -1})
+			if g.r.Chance(1, 3) {
+				p.Ops = append(p.Ops, POp{Kind: "startintr", K: -1 - g.r.Intn(2)})
+			}
+		}
 		p.Ops = append(p.Ops, POp{Kind: "restart"})
 	}
 	return p
+}
+
+// designed shapes: n acknowledged bulks, a way to stop (0 kill, 1 power loss, 2 crash inside a further bulk with a
+// torn meta block), a start-up interrupted after k polls (k = 0 .. n: before the first block ... before the read
+// that ends the replay), an ordinary start, a further bulk, a start-up interrupted at its last poll, a start
+func (g *gen) intrWitness(n, k, way int) Plan {
+	g2 := &gen{r: rng.New(82)}
+	p := Plan{Class: fmt.Sprintf("intr-witness-n%d", n), Seed: g.r.U64()}
+	for i := 0; i < n+2; i++ {
+		p.Bulks = append(p.Bulks, g2.bulk(2))
+	}
+	p.Ops = []POp{{Kind: "restart"}}
+	for i := 0; i < n; i++ {
+		p.Ops = append(p.Ops, POp{Kind: "bulk", Bulk: i})
+	}
+	switch way {
+	case 1:
+		p.Ops = append(p.Ops, POp{Kind: "power"})
+	case 2:
+		p.Ops = append(p.Ops, POp{Kind: "crashin", Bulk: n, K: 2, T: -1, KD: -2, KM: -2})
+	}
+	p.Ops = append(p.Ops, POp{Kind: "startintr", K: k}, POp{Kind: "restart"}, POp{Kind: "bulk", Bulk: n + 1},
+		POp{Kind: "startintr", K: -2}, POp{Kind: "restart"})
+	return p
+}
+
+func intrPlans(g *gen, thorough bool) []Plan {
+	var plans []Plan
+	if thorough {
+		for _, n := range []int{1, 3, 5} {
+			for k := 0; k <= n+1; k++ {
+				for way := 0; way < 3; way++ {
+					plans = append(plans, g.intrWitness(n, k, way))
+				}
+			}
+		}
+		return plans
+	}
+	for _, k := range []int{0, 2, 5, g.r.Intn(6)} {
+		plans = append(plans, g.intrWitness(5, k, g.r.Intn(3)))
+	}
+	plans = append(plans, g.intrWitness(1, g.r.Intn(2), g.r.Intn(3)), g.intrWitness(3, 4, 0))
+	return plans
 }
 
 // concurrent bulks of very different size, then a way to stop, a start, sometimes more
@@ -1461,7 +1557,7 @@ func main() {
 	tier := flag.String("tier", "quick", "")
 	out := flag.String("out", "", "")
 	replay := flag.String("replay", "", "")
-	workers := flag.Int("workers", 6, "")
+	workers := flag.Int("workers", 4, "")
 	probe := flag.String("faultprobe", "", "docs|meta: print what a failed write leaves behind")
 	probeCut := flag.Int("cut", 10, "")
 	mprobe := flag.Bool("mprobe", false, "print the file operations of a rotation, a seal and a start-up over several fractions")
@@ -1478,7 +1574,7 @@ func main() {
 		fmt.Fprintln(os.Stderr, "usage: hC01 -seed N -tier quick|thorough -out DIR [-replay file]")
 		os.Exit(2)
 	}
-	w, err := casefile.New(*out, "C01", "From VLib Require Import CaseLib.\nFrom C01 Require Import Model ModelMulti CaseDefs.\nOpen Scope nat_scope.", 16)
+	w, err := casefile.New(*out, "C01", "From VLib Require Import CaseLib.\nFrom C01 Require Import Model ModelMulti ModelIntr CaseDefs.\nOpen Scope nat_scope.", 16)
 	if err != nil {
 		panic(err)
 	}
@@ -1534,6 +1630,7 @@ func main() {
 				plans = append(plans, g.witness(k, 0, false), g.witness(k, 0, true))
 			}
 		}
+		plans = append(plans, intrPlans(g, *tier == "thorough")...)
 		for i := 0; i < nRandom; i++ {
 			g.nextID = 0
 			plans = append(plans, g.history(maxRounds))
@@ -1652,9 +1749,18 @@ func main() {
 					w.Count(fmt.Sprintf("rotate-crash-after-op:%d", o.J))
 				case "restartcrash":
 					w.Count(fmt.Sprintf("startup-crash-after-op:%d", o.J))
+				case "startintr":
+					w.Count(fmt.Sprintf("multi-startintr-after-polls:%d", min(o.K, 10)))
 				}
 			}
 			for _, o := range res.mobs {
+				if o.Intr != nil {
+					w.Count("multi-startintr:returned-cancellation")
+					if !o.Intr.Same {
+						w.Count("multi-startintr:files-changed(clean-up of earlier fractions)")
+					}
+					w.Count(fmt.Sprintf("multi-startintr:fractions-in-directory:%d", min(len(o.Intr.Files), 6)))
+				}
 				if !o.Died && len(o.Fracs) > nfr {
 					nfr = len(o.Fracs)
 				}
@@ -1693,6 +1799,17 @@ func main() {
 			}
 			if o.Kind == "crashin" {
 				w.Count(fmt.Sprintf("crash-after-op:%d", o.K))
+			}
+			if o.Kind == "startintr" {
+				w.Count(fmt.Sprintf("startintr-after-polls:%d", min(o.K, 8)))
+			}
+		}
+		for _, o := range res.obs {
+			if o.Intr != nil {
+				w.Count("startintr:returned-cancellation")
+				if !o.Intr.Same {
+					w.Count("startintr:files-changed")
+				}
 			}
 		}
 		w.Count(fmt.Sprintf("restarts:%d", len(res.obs)))
